@@ -35,7 +35,10 @@ def numpy_pandas_coercible(series: pd.Series, type_: Any) -> pd.Series:
         except Exception:  # pylint:disable=broad-except
             return False
 
-    return series.map(_coercible)
+    # map the elements as they are stored: mapping a masked array turns the
+    # missing values into nan (and integers into floats), mapping a
+    # categorical may return a categorical
+    return series.astype(object).map(_coercible)
 
 
 def numpy_pandas_coerce_failure_cases(
